@@ -108,6 +108,13 @@ class CustomBase(BaseException):
     pass
 
 
+class EmptyErrors(Exception):
+    """A failure whose truth value is False (an error collection that happens to be empty, a sentinel error)."""
+
+    def __len__(self):
+        return 0
+
+
 class Unprintable(Exception):
     """A failure that cannot be turned into text: reporting it must never replace it."""
 
@@ -123,6 +130,7 @@ def make_exception(kind):
         "KeyError": lambda: KeyError("k"),
         "CustomWithArgs": lambda: CustomWithArgs(7, "detail"),
         "Unprintable": lambda: Unprintable("hidden"),
+        "EmptyErrors": lambda: EmptyErrors("no details"),
         "StopIteration": lambda: StopIteration("stop"),
         "StopAsyncIteration": lambda: StopAsyncIteration("stop"),
         "TimeoutError": lambda: TimeoutError("timed out"),
@@ -157,6 +165,9 @@ def make_value(kind):
         "emptytuple": lambda: (), "emptybytes": lambda: b"", "emptydict": lambda: {}, "str": lambda: "value", "one": lambda: 1,
         "object": lambda: object(), "dict": lambda: {"a": 1}, "true": lambda: True, "none": lambda: None,
         "biglist": lambda: list(range(1000)), "exception_instance": lambda: ValueError("returned, not raised"),
+        # errors handed back instead of raised (task.exception(), an item of gather(return_exceptions=True)): values like any other
+        "kbint_instance": lambda: KeyboardInterrupt(), "cancelled_instance": lambda: asyncio.CancelledError("handed back"),
+        "stopiteration_instance": lambda: StopIteration("handed back"),
         "awaitable": Ticket, "generator": lambda: (i for i in range(3)), "function": lambda: make_value, "type": lambda: Ticket,
     }
     return table[kind]()
